@@ -225,6 +225,33 @@ def check_packet(ctx, rng, is_data, kind, content_len, mut_budget):
                 muts.append((lab, rc.enc_tlv(6 if is_data else 5, head + repl + tail)))
     except (rc.Reject, KeyError):
         pass
+    # the SignatureInfo gains / loses / changes its KeyLocator (a known, correctly placed optional element inside the signed portion);
+    # the packet's content is altered as well in half of them
+    try:
+        b0, vs0, ve0 = rc.outer(wire, 6 if is_data else 5)
+        kids = rc.children(b0, vs0, ve0)
+        sik = [k_ for k_ in kids if k_[0] == (0x16 if is_data else 0x2c)]
+        if sik:
+            t_, ts_, vs_, ve_ = sik[-1]
+            inner = rc.children(b0, vs_, ve_)
+            kl = [k_ for k_ in inner if k_[0] == 0x1c]
+            styp = [k_ for k_ in inner if k_[0] == 0x1b]
+            if styp:
+                after_type = styp[0][3]
+                new_kl = rc.enc_tlv(0x1c, rc.enc_name([rc.comp(8, b'added'), rc.comp(8, b'KEY'), rc.comp(8, b'k')]))
+                variants = [('keylocator-added', b0[vs_:after_type] + new_kl + b0[(kl[0][3] if kl else after_type):ve_]),
+                            ('keylocator-digest-added', b0[vs_:after_type] + rc.enc_tlv(0x1c, rc.enc_tlv(0x1d, bytes(32))) + b0[(kl[0][3] if kl else after_type):ve_])]
+                kb = sinfo.get('pub') or sinfo.get('key')
+                if kb:
+                    # ... a KeyDigest that really is the SHA-256 of the verifier's key: still not a signature
+                    variants.append(('keylocator-digest-of-the-key', b0[vs_:after_type] + rc.enc_tlv(0x1c, rc.enc_tlv(0x1d, __import__('hashlib').sha256(kb).digest())) +
+                                     b0[(kl[0][3] if kl else after_type):ve_]))
+                if kl:
+                    variants.append(('keylocator-removed', b0[vs_:kl[0][1]] + b0[kl[0][3]:ve_]))
+                for lab, si_val in variants:
+                    muts.append((lab, rc.enc_tlv(6 if is_data else 5, b0[vs0:ts_] + rc.enc_tlv(t_, si_val) + b0[ve_:ve0])))
+    except (rc.Reject, KeyError, IndexError):
+        pass
     # splice: signature value of another packet signed by the same signer
     try:
         other_wire = bytes(make_data(comps, MetaInfo(), gen.rand_bytes(rng, 5), signer)) if is_data else \
@@ -268,7 +295,7 @@ def check_packet(ctx, rng, is_data, kind, content_len, mut_budget):
             ctx.report('params-checker-iff', 'params_sha256_checker=True for a digest component that is not 32 octets long (its first octets are the correct hash)',
                        dict(w, mutant=m[:400], label=label))
     if mut_budget is not None and len(muts) > mut_budget:
-        keep = [m_ for m_ in muts if m_[0].endswith('sig-value') or m_[0] == 'splice-sig']
+        keep = [m_ for m_ in muts if m_[0].endswith('sig-value') or m_[0] == 'splice-sig' or m_[0].startswith('keylocator-')]
         muts = keep + rng.sample([m_ for m_ in muts if m_ not in keep], max(0, mut_budget - len(keep)))
     for label, m in muts:
         if m == wire:
